@@ -544,6 +544,7 @@ func c20MDepth(tier string) int {
 }
 
 const c20MDribbleDepth = 2
+const c20MCoalescedDepth = 4 // the unjudged coalesced-stream probe stops here
 
 func c20Names(seq []*c20Sym) []string {
 	r := make([]string, len(seq))
@@ -657,7 +658,9 @@ func c20MRun(c *vfeng.Ctx) {
 			if c.Mine(idx) {
 				distinct++
 				judge("framed")
-				judge("coalesced")
+				if len(seq) <= c20MCoalescedDepth {
+					judge("coalesced")
+				}
 				if len(seq) <= c20MDribbleDepth {
 					judge("dribble")
 				}
@@ -741,7 +744,7 @@ func init() {
 		Level:    "model_checking",
 		Rule: "every sequence up to the depth bound over the wire-event alphabet (auth x5 + unknown auth type, service-provider login, web login x2, SSH certificate: 3 well-formed + 7 malformed/foreign byte strings, X.509: 2 well-formed + 5 malformed/foreign, unknown event type, empty object, 3 kinds of JSON damage), " +
 			"encoded like eventnotifier.transmitV0 and delivered through an in-memory net.Conn to the real Monitor.monitor -> receiveV0 -> notify; the seven public channels are drained and compared per channel with the expected lists (order and content; SSH: parsed certificate re-marshals to the sent bytes and carries the built key id/serial/principals; X.509: Raw equals the sent DER, CN and serial match); " +
-			"delivery framed (one read per event, as TLS records arrive) for all sequences, byte-by-byte for sequences up to length 2, and fully coalesced (recorded as a class, see assumptions); a class is (delivery mode, last symbol, channels it reached | connection outcome)",
+			"delivery framed (one read per event, as TLS records arrive) for all sequences, byte-by-byte for sequences up to length 2, and fully coalesced for sequences up to length 4 (recorded as a class, see assumptions); a class is (delivery mode, last symbol, channels it reached | connection outcome)",
 		Assumptions: []string{
 			"the monitor is built by the real newMonitor with an empty host name (its lookup goroutine finds no server and idles); network dial, TLS and the CONNECT exchange (dialAndConnect/connect) are not exercised",
 			"framed delivery models the real transport: the sender flushes after each event and crypto/tls returns at most one record per Read; receiveV0 creates a new json.Decoder per event, so on a stream WITHOUT message boundaries (coalesced mode) bytes buffered by one decoder are lost - this is recorded as class 'coalesced-stream|EVENTS-LOST', not judged, because the real peer never produces such a stream",
@@ -750,9 +753,14 @@ func init() {
 			"order across different channels is not observable at this interface; the dispatch loop in cmd/keymaster-eventmond/main() that copies the channels into the recorder is package main and not callable (DESIGN.md C20 'X')",
 		},
 		Bounds: func(tier string) map[string]interface{} {
-			return map[string]interface{}{"depth": c20MDepth(tier), "alphabet": len(c20Build().syms), "dribble_depth": c20MDribbleDepth, "modes": []string{"framed", "coalesced", "dribble"}}
+			return map[string]interface{}{"depth": c20MDepth(tier), "alphabet": len(c20Build().syms), "dribble_depth": c20MDribbleDepth, "coalesced_depth": c20MCoalescedDepth, "modes": []string{"framed", "coalesced", "dribble"}}
 		},
-		Shards: func(tier string) int { return 12 },
+		Shards: func(tier string) int {
+			if tier == "thorough" {
+				return 16
+			}
+			return 12
+		},
 		Run:    c20MRun,
 		Replay: c20MReplayFn,
 	}
